@@ -36,6 +36,13 @@ def form_app(buf, max_body=None):
             out['forms'] = [[k, v if isinstance(v, list) else [v]] for k, v in rq.forms.items()]
         if 'files' in what:
             files = []
+            # the uploads are read the way a handler that sniffs types does: the first bytes of EVERY upload, then the rest of each
+            heads = {}
+            for k, v in rq.files.items():
+                for u in (v if isinstance(v, list) else [v]):
+                    if hasattr(u, 'file'):
+                        u.file.seek(0)
+                        heads[id(u)] = u.file.read(4)
             for k, v in rq.files.items():
                 ups = v if isinstance(v, list) else [v]
                 row = []
@@ -43,8 +50,7 @@ def form_app(buf, max_body=None):
                     if hasattr(u, 'file'):
                         ct = u.headers.get('Content-Type') if hasattr(u, 'headers') else None
                         ct = getattr(ct, 'value', ct)
-                        u.file.seek(0)
-                        row.append([u.raw_filename, [ct] if ct is not None else [], list(u.file.read())])
+                        row.append([u.raw_filename, [ct] if ct is not None else [], list(heads[id(u)] + u.file.read())])
                     else:
                         row.append(['<not an upload: %r>' % (u,), [], []])
                 files.append([k, row])
